@@ -23,9 +23,15 @@ Verdict ==
    topo    |-> (\A s \in 1..NS : GP!InRange(s)) => \A s \in 1..NS : GP!TopoOK(s),
    single  |-> (\A s \in 1..NS : GP!InRange(s)) => \A s \in 1..NS : GP!SingleProducer(s),
    names   |-> \A s \in 1..NS : GP!UniqueNames(s),
-   skel    |-> (\A s \in 1..NS : GP!InRange(s)) => \A s \in 1..NS : GP!Skeleton(s),
-   modes   |-> (\A s \in 1..NS : GP!InRange(s) /\ GP!Skeleton(s)) => \A s \in 1..NS : GP!ModesRespected(s),
-   params  |-> (\A s \in 1..NS : GP!InRange(s) /\ GP!Skeleton(s)) => \A s \in 1..NS : GP!ParamRelations(s),
+   skelops |-> (\A s \in 1..NS : GP!InRange(s)) => \A s \in 1..NS : GP!SkelOps(s),
+   skelten |-> \A s \in 1..NS : GP!SkelTensors(s),
+   skelio  |-> (\A s \in 1..NS : GP!InRange(s)) => \A s \in 1..NS : GP!SkelIO(s),
+   skelnm  |-> (\A s \in 1..NS : GP!InRange(s)) => \A s \in 1..NS : GP!SkelIONamesModKF(s),
+   kf7     |-> (\A s \in 1..NS : GP!InRange(s)) /\ \E s \in 1..NS : GP!KF7Hit(s),
+   skelsig |-> \A s \in 1..NS : GP!SkelSig(s),
+   skeltyp |-> (\A s \in 1..NS : GP!InRange(s)) => \A s \in 1..NS : GP!SkelIOType(s),
+   modes   |-> (\A s \in 1..NS : GP!InRange(s) /\ GP!SkelOps(s)) => \A s \in 1..NS : GP!ModesRespected(s),
+   params  |-> (\A s \in 1..NS : GP!InRange(s) /\ GP!SkelOps(s)) => \A s \in 1..NS : GP!ParamRelations(s),
    bytes   |-> (\A s \in 1..NS : GP!InRange(s)) => GP!SharedConstOK]
 
 Init == tid \in 1..Len(Obs)
